@@ -103,6 +103,10 @@ theorem createOffer_spec {st : St} (ok : PeerOK st) (hsem : st.cfg.sem ≠ .plan
     rw [(createOffer_ok hres).1]
     exact okS.register (hspec d hres).descOK
 
+theorem PeerOK.answerState {st : St} (ok : PeerOK st) (r : Desc) : PeerOK (answerState st r) := by
+  obtain ⟨t, g, _, c, p, cr, cp, _⟩ := answerState_same st r
+  exact ok.of_fields (ok.inv.of_trs t g) c p cr cp
+
 theorem createAnswer_spec {st : St} (ok : PeerOK st) :
     PeerOK (createAnswer st).1 ∧ ∀ d, (createAnswer st).2 = .ok d → SpecC06 d := by
   have hspec : ∀ d, (createAnswer st).2 = .ok d → SpecC06 d :=
@@ -110,21 +114,25 @@ theorem createAnswer_spec {st : St} (ok : PeerOK st) :
   refine ⟨?_, hspec⟩
   cases hres : (createAnswer st).2 with
   | error e =>
-    have : (createAnswer st).1 = st := by
-      unfold createAnswer at hres ⊢
+    have : (createAnswer st).1 = st ∨ ∃ r, (createAnswer st).1 = answerState st r := by
+      unfold createAnswer
       split
-      · rfl
+      · exact Or.inl rfl
       · split
-        · rfl
+        · exact Or.inl rfl
         · split
-          · rfl
+          · exact Or.inr ⟨_, rfl⟩
           · rename_i d hd
+            exfalso
+            unfold createAnswer at hres
             simp [*] at hres
-    rw [this]; exact ok
+    rcases this with h | ⟨r, h⟩
+    · rw [h]; exact ok
+    · rw [h]; exact ok.answerState r
   | ok d =>
-    obtain ⟨_, _, _, _, e⟩ := createAnswer_ok hres
+    obtain ⟨r, _, _, _, e⟩ := createAnswer_ok hres
     rw [e]
-    exact ok.register (hspec d hres).descOK
+    exact (ok.answerState r).register (hspec d hres).descOK
 
 
 theorem setDescRemote_ok {st st1 : St} {d : Desc} (h : setDescRemote st d = .ok st1) (ok : PeerOK st) (hd : DescOK d) :
@@ -139,36 +147,16 @@ theorem setDescRemote_ok {st st1 : St} {d : Desc} (h : setDescRemote st d = .ok 
       simp only [Option.some.injEq] at h'; subst h'; exact hd
     · intro d' h'; cases h'
 
-theorem setRemote_shape (st : St) (d : Desc) :
-    (setRemote st d).1 = st ∨
-      ∃ st1 trs, setDescRemote st d = .ok st1 ∧ (setRemote st d).1 = { engineUpdate st1 d with trs := trs } := by
-  unfold setRemote
-  split
-  · exact Or.inl rfl
-  · split
-    · exact Or.inl rfl
-    · rename_i st1 h1
-      right
-      simp only
-      split
-      · exact ⟨st1, _, h1, rfl⟩
-      · split
-        · exact ⟨st1, _, h1, rfl⟩
-        · split
-          · exact ⟨st1, _, h1, rfl⟩
-          · split
-            · exact ⟨st1, _, h1, rfl⟩
-            · exact ⟨st1, _, h1, rfl⟩
-
 theorem setRemote_ok (st : St) (d : Desc) (ok : PeerOK st) (hd : DescOK d) : PeerOK (setRemote st d).1 := by
   have inv := setRemote_inv st d ok.inv hd
-  rcases setRemote_shape st d with h | ⟨st1, trs, h1, h2⟩
+  rcases setRemote_shape st d with h | ⟨st1, h1, h2⟩
   · rw [h]; exact ok
   · obtain ⟨rem1, cr1⟩ := setDescRemote_ok h1 ok hd
     obtain ⟨_, _, _, e4, e5, e6, e7, _⟩ := engineUpdate_same d st1
-    rw [h2] at inv ⊢
-    exact ⟨inv, ⟨by simp only [e4]; exact rem1.cur, by simp only [e5]; exact rem1.pend⟩,
-      ⟨by simp only [e6]; exact cr1.last, by simp only [e7]; exact cr1.prev⟩⟩
+    rcases h2 with h2 | ⟨_, h2⟩ <;>
+    · rw [h2] at inv ⊢
+      exact ⟨inv, ⟨by simp only [e4]; exact rem1.cur, by simp only [e5]; exact rem1.pend⟩,
+        ⟨by simp only [e6]; exact cr1.last, by simp only [e7]; exact cr1.prev⟩⟩
 
 theorem setDescLocal_ok {st st1 : St} {n : Nat} {d : Desc} (h : setDescLocal st n d = .ok st1) (ok : PeerOK st) :
     RemOK st1 ∧ CreatedOK st1 := by
